@@ -82,6 +82,9 @@ func isComparable(l, r reflect.Type) bool {
 	return false
 }
 
+// fastFuncType is the type of the functions the VM calls without reflection.
+var fastFuncType = reflect.TypeOf((func(...interface{}) interface{})(nil))
+
 func isInterface(t reflect.Type) bool {
 	t = dereference(t)
 	if t != nil {
